@@ -10,8 +10,8 @@
 (* a Switch is a nondeterministic choice (refined by what is known about    *)
 (* the discriminant), loops close because the abstract state is finite.     *)
 (*                                                                         *)
-(* State: which function, which block is about to run, and for every        *)
-(* variable an abstract ownership value                                     *)
+(* State: which function, which instruction of which block is about to run, *)
+(* and for every variable an abstract ownership value                       *)
 (*    L(init)               a leaf: initialised or not                      *)
 (*    R(fields)             a record, field by field                        *)
 (*    EU                    an enum that holds nothing (uninitialised)      *)
@@ -36,8 +36,8 @@ EXTENDS Naturals, Sequences, SequencesExt, FiniteSets, TLC, Json, IOUtils
 
 Fns == ndJsonDeserialize(IOEnv.MIR)       \* one JSON object per function
 
-VARIABLES fn, lbl, own, discr
-vars == <<fn, lbl, own, discr>>
+VARIABLES fn, lbl, pc, own, discr
+vars == <<fn, lbl, pc, own, discr>>
 
 (* ------------------------------ type trees ------------------------------ *)
 RECURSIVE TyDrop(_)
@@ -133,29 +133,36 @@ ProjStr(proj) == proj
 
 (* s = [own, discr, viols]; viols is a set of <<kind, variable, detail>> *)
 Viol(s, k, v, d) == [s EXCEPT !.viols = @ \cup {<<k, v, d>>}]
+(* Only variables whose type can own something droppable are tracked: the   *)
+(* others cannot be released twice or leaked, and leaving them out keeps    *)
+(* the state space small.                                                   *)
+Tracked(s, v) == v \in DOMAIN s.own
 NeedFull(s, v, what) ==
-    IF ~IsFull(s.own[v], VT(v)) THEN Viol(s, "use-uninit", v, what) ELSE s
-Consume(s, v) == IF TyDrop(VT(v)) THEN [s EXCEPT !.own[v] = Uninit(VT(v))] ELSE s
+    IF Tracked(s, v) /\ ~IsFull(s.own[v], VT(v)) THEN Viol(s, "use-uninit", v, what) ELSE s
+Consume(s, v) == IF Tracked(s, v) THEN [s EXCEPT !.own[v] = Uninit(VT(v))] ELSE s
 
 RECURSIVE ConsumeArgs(_, _, _)
 ConsumeArgs(s, args, i) ==
     IF i > Len(args) THEN s
-    ELSE ConsumeArgs(Consume(NeedFull(s, args[i], "arg"), args[i]), args, i + 1)
+    ELSE ConsumeArgs((Consume(NeedFull(s, args[i], "arg"), args[i])), args, i + 1)
 
 (* effect of the value on the state, and the abstract value produced *)
 ValEffect(s, ins) ==
     LET val == ins.val
         full == FullInit(ins.ty) IN
     CASE val.k = "clone" ->
-            LET g == Get(s.own[val.place.var], VT(val.place.var), val.place.proj) IN
-            IF IsFull(g[1], g[2]) THEN [s |-> s, new |-> g[1]]
-            ELSE [s |-> Viol(s, "clone-uninit", val.place.var, "clone"), new |-> full]
+            IF ~Tracked(s, val.place.var) THEN [s |-> s, new |-> full]
+            ELSE LET g == Get(s.own[val.place.var], VT(val.place.var), val.place.proj) IN
+                 IF IsFull(g[1], g[2]) THEN [s |-> s, new |-> g[1]]
+                 ELSE [s |-> Viol(s, "clone-uninit", val.place.var, "clone"), new |-> full]
       [] val.k = "move" ->
-            LET s1 == NeedFull(s, val.var, "move") IN
-            [s |-> Consume(s1, val.var),
-             new |-> IF IsFull(s.own[val.var], VT(val.var)) THEN s.own[val.var] ELSE full]
+            IF ~Tracked(s, val.var) THEN [s |-> s, new |-> full]
+            ELSE LET s1 == NeedFull(s, val.var, "move") IN
+                 [s |-> Consume(s1, val.var),
+                  new |-> IF IsFull(s.own[val.var], VT(val.var)) THEN s.own[val.var] ELSE full]
       [] val.k = "discr" ->
-            [s |-> IF s.own[val.var].a = "EU" THEN Viol(s, "discr-uninit", val.var, "discriminant") ELSE s, new |-> full]
+            [s |-> IF Tracked(s, val.var) /\ s.own[val.var].a = "EU"
+                   THEN Viol(s, "discr-uninit", val.var, "discriminant") ELSE s, new |-> full]
       [] val.k = "un" -> [s |-> NeedFull(s, val.var, "unop"), new |-> full]
       [] val.k = "bin" -> [s |-> NeedFull(NeedFull(s, val.l, "binop"), val.r, "binop"), new |-> full]
       [] val.k \in {"call", "callrt"} -> [s |-> ConsumeArgs(s, val.args, 1), new |-> full]
@@ -163,28 +170,32 @@ ValEffect(s, ins) ==
 
 Assign(s0, ins) ==
     LET tv == ins.to.var
-        e == ValEffect(s0, ins)
+        e == (ValEffect(s0, ins))
         s1 == e.s
-        cur == Get(s1.own[tv], VT(tv), ins.to.proj)
-        s2 == IF cur[1].a # "BAD" /\ Holds(cur[1], cur[2]) THEN Viol(s1, "overwrite-live", tv, "assign") ELSE s1
+        tracked == Tracked(s1, tv)
+        cur == IF tracked THEN Get(s1.own[tv], VT(tv), ins.to.proj) ELSE <<L(FALSE), [k |-> "unit"]>>
+        s2 == IF tracked /\ cur[1].a # "BAD" /\ Holds(cur[1], cur[2]) THEN Viol(s1, "overwrite-live", tv, "assign") ELSE s1
         \* what is known about discriminant temporaries
         isDiscr == ins.val.k = "discr" /\ ins.to.proj = <<>>
         d1 == [t \in DOMAIN s2.discr |->
                  IF t = tv THEN (IF isDiscr THEN ins.val.var ELSE "")
                  ELSE IF s2.discr[t] = tv /\ ~isDiscr THEN "" ELSE s2.discr[t]]
-        r == Put(s2.own[tv], VT(tv), ins.to.proj, e.new) IN
-    IF r.a = "BAD" THEN [Viol(s2, "assign-variant-field-unconstructed", tv, "assign") EXCEPT !.discr = d1]
+        r == IF tracked THEN Put(s2.own[tv], VT(tv), ins.to.proj, e.new) ELSE L(TRUE) IN
+    IF ~tracked THEN [s2 EXCEPT !.discr = d1]
+    ELSE IF r.a = "BAD" THEN [Viol(s2, "assign-variant-field-unconstructed", tv, "assign") EXCEPT !.discr = d1]
     ELSE [s2 EXCEPT !.own[tv] = r, !.discr = d1]
 
 SetDiscr(s, ins) ==
+    IF ~Tracked(s, ins.to) THEN s ELSE
     LET tv == ins.to
         s1 == IF Holds(s.own[tv], VT(tv)) THEN Viol(s, "overwrite-live", tv, "setdiscr") ELSE s
         v == Variant(VT(tv), ins.variant) IN
     [s1 EXCEPT !.own[tv] = Normalize(EC(ins.variant, [j \in 1..Len(v.fields) |-> Uninit(v.fields[j])]), VT(tv))]
 
 DropIns(s, ins) ==
+    IF ~Tracked(s, ins.place.var) THEN s ELSE
     LET sv == ins.place.var
-        g == Get(s.own[sv], VT(sv), ins.place.proj)
+        g == (Get(s.own[sv], VT(sv), ins.place.proj))
         s1 == IF ~IsFull(g[1], g[2]) /\ TyDrop(g[2])
               THEN Viol(s, IF AnyInit(g[1]) THEN "drop-partial" ELSE "drop-uninit", sv, "drop") ELSE s IN
     IF ~TyDrop(g[2]) THEN s1
@@ -194,26 +205,14 @@ DropIns(s, ins) ==
 
 ReturnIns(s, ins) ==
     LET s1 == NeedFull(s, ins.var, "return")
-        s2 == [s1 EXCEPT !.own[ins.var] = Uninit(VT(ins.var))]
+        s2 == Consume(s1, ins.var)
         leaked == {v \in DOMAIN s2.own : Holds(s2.own[v], VT(v))} IN
     [s2 EXCEPT !.viols = @ \cup {<<"leak-at-return", v, "return">> : v \in leaked}]
-
-(* run the straight-line part of a block; stops at the terminator *)
-RECURSIVE Run(_, _, _)
-Run(ins, i, s) ==
-    IF i > Len(ins) THEN [s |-> s, term |-> [k |-> "none"]]
-    ELSE LET x == ins[i] IN
-         CASE x.k = "assign" -> Run(ins, i + 1, Assign(s, x))
-           [] x.k = "setdiscr" -> Run(ins, i + 1, SetDiscr(s, x))
-           [] x.k = "drop" -> Run(ins, i + 1, DropIns(s, x))
-           [] x.k = "return" -> [s |-> ReturnIns(s, x), term |-> x]
-           [] x.k = "jump" -> [s |-> s, term |-> x]
-           [] x.k = "switch" -> [s |-> s, term |-> x]
 
 (* successors of a switch: <<label, own>> pairs, refined by the discriminant *)
 SwitchSuccs(s, t) ==
     LET ex == t.ex IN
-    IF ex \in DOMAIN s.discr /\ s.discr[ex] # ""
+    IF ex \in DOMAIN s.discr /\ s.discr[ex] # "" /\ s.discr[ex] \in DOMAIN s.own
     THEN LET x == s.discr[ex]
              names == VariantNames(VT(x))
              cur == s.own[x]
@@ -229,29 +228,39 @@ SwitchSuccs(s, t) ==
     ELSE {<<t.br[j].to, s.own>> : j \in 1..Len(t.br)} \cup (IF t.def # "" THEN {<<t.def, s.own>>} ELSE {})
 
 (* ------------------------------- behaviour ------------------------------- *)
-InitOwn(f) == [v \in DOMAIN f.vt |->
+InitOwn(f) == [v \in {x \in DOMAIN f.vt : TyDrop(f.vt[x])} |->
                  IF \E i \in 1..Len(f.params) : f.params[i] = v THEN FullInit(f.vt[v]) ELSE Uninit(f.vt[v])]
 
 Init == /\ fn \in 1..Len(Fns)
         /\ lbl = Fns[fn].blocks[1].label
+        /\ pc = 1
         /\ own = InitOwn(Fns[fn])
-        /\ discr = [v \in DOMAIN Fns[fn].vt |-> ""]
+        /\ discr = [v \in {Fns[fn].dtmps[i] : i \in 1..Len(Fns[fn].dtmps)} |-> ""]
 
-Result == Run(Block(lbl), 1, [own |-> own, discr |-> discr, viols |-> {}])
+Report(viols) == viols # {} =>
+    PrintT(<<"REPLAY", ToJson([fn |-> F.name, idx |-> F.idx, block |-> lbl, viols |-> SetToSeq(viols)])>>)
 
-Report(r) == r.s.viols # {} =>
-    PrintT(<<"REPLAY", ToJson([fn |-> F.name, idx |-> F.idx, block |-> lbl,
-                               viols |-> SetToSeq(r.s.viols)])>>)
-
+(* one instruction per step (the state variables are concrete values, so     *)
+(* every step is evaluated from scratch in time linear in the state)         *)
 Next ==
     /\ lbl # "<end>"
-    /\ LET r == Result IN
-       /\ Report(r)
-       /\ UNCHANGED fn
-       /\ CASE r.term.k = "jump" -> lbl' = r.term.to /\ own' = r.s.own /\ discr' = r.s.discr
-            [] r.term.k = "switch" -> \E p \in SwitchSuccs(r.s, r.term) :
-                                          lbl' = p[1] /\ own' = p[2] /\ discr' = r.s.discr
-            [] OTHER -> lbl' = "<end>" /\ own' = r.s.own /\ discr' = r.s.discr
+    /\ UNCHANGED fn
+    /\ LET ins == Block(lbl)
+           x == ins[pc]
+           s == [own |-> own, discr |-> discr, viols |-> {}] IN
+       IF pc > Len(ins) THEN lbl' = "<end>" /\ pc' = 1 /\ UNCHANGED <<own, discr>>
+       ELSE CASE x.k \in {"assign", "setdiscr", "drop"} ->
+                   LET r == IF x.k = "assign" THEN Assign(s, x)
+                            ELSE IF x.k = "setdiscr" THEN SetDiscr(s, x) ELSE DropIns(s, x) IN
+                   /\ Report(r.viols)
+                   /\ own' = r.own /\ discr' = r.discr /\ pc' = pc + 1 /\ UNCHANGED lbl
+              [] x.k = "return" ->
+                   LET r == ReturnIns(s, x) IN
+                   /\ Report(r.viols)
+                   /\ own' = r.own /\ discr' = r.discr /\ lbl' = "<end>" /\ pc' = 1
+              [] x.k = "jump" -> lbl' = x.to /\ pc' = 1 /\ UNCHANGED <<own, discr>>
+              [] x.k = "switch" -> \E p \in SwitchSuccs(s, x) :
+                                       lbl' = p[1] /\ own' = p[2] /\ pc' = 1 /\ UNCHANGED discr
 
 Spec == Init /\ [][Next]_vars
 =============================================================================
